@@ -55,6 +55,10 @@ def gen_type(r, d, cnt):
             t = gen_type(r, d - 1, cnt)
             if isinstance(t, St) and r.random() < 0.25: mems.append((None, t))
             else: mems.append((f'm{cnt[0]}', t))
+        # an unnamed bit-field directly after a member: where initialization resumes after that member is designated (also from an
+        # enclosing list: .m.x = v, next) it must step over the unnamed bit-field (6.7.9p9)
+        if not union and r.random() < 0.15:
+            bt = r.choice(list(BFT)); mems.append((None, Sc(bt, r.choice([0, r.randint(1, BFT[bt])]))))
     if all(n is None and isinstance(t, Sc) for n, t in mems):      # only unnamed bit-fields: add a real member
         cnt[0] += 1; mems.append((f'm{cnt[0]}', Sc('int')))
     return St(mems, union)
